@@ -155,3 +155,60 @@ Theorem C09_hap_prefix_examples :
   /\ haplotype_prefix_of_name (s "Hap2_scaffold_17b") = None.
 Proof. exact Proofs.HapPrefix.hap_prefix_examples. Qed.
 Print Assumptions C09_hap_prefix_examples.
+
+(* ROUTING, END TO END through [remap]: every stored result that still has rows
+   is written, whole and contiguous, into a scaffold (same tag, same haplotype)
+   of the output assembly keyed by its tag if it has one, else by its haplotype
+   if it has one, else None (the primary assembly); the same for left-over
+   scaffolds (sequence absent from the map); conversely every scaffold of an
+   output assembly carries that assembly's key. *)
+From Tola Require Proofs.RoutingEndToEnd.
+From Tola Require Import Model.OverlapResult.
+Theorem C09_routing_end_to_end : forall g prefix bpt input pretext o rs,
+  remap_to_input repaired g prefix bpt input pretext = Ok rs ->
+  remap repaired g prefix bpt input pretext = Ok o ->
+  (forall id r, In id (b_added (rs_b rs)) -> get_ovr (b_store (rs_b rs)) id = Ok r -> o_rows r <> [] ->
+     exists a sc pre suf,
+       In a (out_asms o) /\ In sc (oa_scaffolds a)
+       /\ sc_rows sc = pre ++ to_scaffold_rows r ++ suf
+       /\ sc_tag sc = o_tag r /\ sc_hap sc = o_hap r
+       /\ oa_key a = Proofs.RoutingEndToEnd.dest_key (o_tag r) (o_hap r))
+  /\ (forall l, In l (rs_left rs) -> sc_rows l <> [] ->
+     exists a sc pre suf,
+       In a (out_asms o) /\ In sc (oa_scaffolds a)
+       /\ sc_rows sc = pre ++ sc_rows l ++ suf
+       /\ sc_tag sc = sc_tag l /\ sc_hap sc = sc_hap l
+       /\ oa_key a = Proofs.RoutingEndToEnd.dest_key (sc_tag l) (sc_hap l))
+  /\ (forall a sc, In a (out_asms o) -> In sc (oa_scaffolds a) ->
+        oa_key a = Proofs.RoutingEndToEnd.dest_key (sc_tag sc) (sc_hap sc)).
+Proof. exact Proofs.RoutingEndToEnd.routing_end_to_end. Qed.
+Print Assumptions C09_routing_end_to_end.
+
+(* ... in terms of the tags in the Pretext file: a piece whose bait is tagged
+   Haplotig (and not FalseDuplicate) is written to the assembly keyed Haplotig,
+   a piece tagged Contaminant (and neither of the other two) to the assembly keyed
+   Contaminant -- wherever in its Pretext scaffold it sits and whatever the other
+   scaffolds are called *)
+Theorem C09_haplotig_bait_routed : forall g prefix bpt input pretext o rs id r,
+  remap_to_input repaired g prefix bpt input pretext = Ok rs ->
+  remap repaired g prefix bpt input pretext = Ok o ->
+  In id (b_added (rs_b rs)) -> get_ovr (b_store (rs_b rs)) id = Ok r -> o_rows r <> [] ->
+  In (s "Haplotig") (f_tags (o_bait r)) -> ~ In (s "FalseDuplicate") (f_tags (o_bait r)) ->
+  exists a sc pre suf,
+    In a (out_asms o) /\ oa_key a = Some (s "Haplotig") /\ In sc (oa_scaffolds a)
+    /\ sc_tag sc = Some (s "Haplotig")
+    /\ sc_rows sc = pre ++ to_scaffold_rows r ++ suf.
+Proof. exact Proofs.RoutingEndToEnd.haplotig_bait_routed. Qed.
+Print Assumptions C09_haplotig_bait_routed.
+Theorem C09_contaminant_bait_routed : forall g prefix bpt input pretext o rs id r,
+  remap_to_input repaired g prefix bpt input pretext = Ok rs ->
+  remap repaired g prefix bpt input pretext = Ok o ->
+  In id (b_added (rs_b rs)) -> get_ovr (b_store (rs_b rs)) id = Ok r -> o_rows r <> [] ->
+  In (s "Contaminant") (f_tags (o_bait r)) ->
+  ~ In (s "FalseDuplicate") (f_tags (o_bait r)) -> ~ In (s "Haplotig") (f_tags (o_bait r)) ->
+  exists a sc pre suf,
+    In a (out_asms o) /\ oa_key a = Some (s "Contaminant") /\ In sc (oa_scaffolds a)
+    /\ sc_tag sc = Some (s "Contaminant")
+    /\ sc_rows sc = pre ++ to_scaffold_rows r ++ suf.
+Proof. exact Proofs.RoutingEndToEnd.contaminant_bait_routed. Qed.
+Print Assumptions C09_contaminant_bait_routed.
